@@ -176,6 +176,14 @@ def check(chk):
                 fq = qual_of(f)
                 # local variables named like the attribute (request_ids = [...] in wait_for_responses) are not attribute writes
                 seen.add(fq)
+                if fq not in table and fq.split('.')[-1].startswith('_') and not fq.split('.')[-1].startswith('__'):
+                    # a private helper counts as the functions that call it - if every caller is a listed writer
+                    callers = set(qual_of(c_) for m2 in mods for c_ in ast.walk(m2.tree) if isinstance(c_, ast.Call) and isinstance(c_.func, ast.Attribute)
+                                  and c_.func.attr == fq.split('.')[-1] and src(c_.func.value) == 'self' and qual_of(c_).split('.')[0] == fq.split('.')[0])
+                    if callers and callers <= set(table):
+                        seen.update(callers)
+                        chk.ok('C09.writers', st, '%s (private helper of %s) writes .%s' % (fq, sorted(callers), attr))
+                        continue
                 chk.judge(fq in table, 'C09.writers', st, '%s writes .%s' % (fq, attr),
                           '%s modifies Connection.%s; only %s may (a new writer must keep the pairing rules of this check)' % (fq, attr, sorted(table)))
         for must in [k for k, v in table.items() if v]:
@@ -223,7 +231,10 @@ def check(chk):
               'C09.release', rc, 'paging session removal returns its id once (pop guards against a second removal)', 'paging session id release changed')
 
     # ---- orphan pairing
-    orphan_if = [n for n in body_walk(pm) if isinstance(n, ast.If) and 'orphaned_request_ids' in src(n.test)]
+    # in process_msg itself or in a private method of Connection it calls
+    pm_scopes = [pm] + [conn.func('Connection.' + c_.func.attr) for c_ in body_walk(pm) if isinstance(c_, ast.Call) and isinstance(c_.func, ast.Attribute)
+                        and src(c_.func.value) == 'self' and c_.func.attr.startswith('_') and conn.has('Connection.' + c_.func.attr)]
+    orphan_if = [n for f_ in pm_scopes for n in body_walk(f_) if isinstance(n, ast.If) and 'orphaned_request_ids' in src(n.test)]
     good = False
     for n in orphan_if:
         body = ' ; '.join(src(x) for x in n.body)
